@@ -238,9 +238,9 @@ pub fn c11(a: &Analysis) -> Vec<Violation> {
 }
 
 fn build(_ctx: &Ctx, tier: Tier, seed: u64) -> Vec<Job<'static>> {
-    let (n_small, n_big) = match tier {
-        Tier::Quick => (12_000, 800),
-        Tier::Thorough => (300_000, 40_000),
+    let (n_small, n_big, n_flood) = match tier {
+        Tier::Quick => (12_000, 800, 32),
+        Tier::Thorough => (300_000, 40_000, 3_000),
     };
     vec![
         Job {
@@ -285,6 +285,47 @@ fn build(_ctx: &Ctx, tier: Tier, seed: u64) -> Vec<Job<'static>> {
                             }
                         }
                     }
+                }
+                sc
+            }),
+        },
+        Job {
+            label: "immediate-NAK floods: one Put of 800..1300 tiny segments with every other data PDU (80-100% of the odd ones) lost, immediate NAK mode, zero serialisation time: hundreds of NAK PDUs reach the one live send transaction at one instant while it retransmits".into(),
+            n: n_flood,
+            gen: Box::new(move |i| {
+                let mut rng = Rng::new(mix(seed ^ 0xC11F, i as u64));
+                let mut sc = scenario(seed ^ 0xF1, i, false);
+                sc.script.retain(|e| !matches!(e, Entry::Fault { .. }));
+                sc.ser_us = 0;
+                sc.ser_ns_byte = 0;
+                for e in sc.ents.iter_mut() {
+                    e.seg = 24;
+                    e.limit = 4;
+                    e.t_nak = 2;
+                    e.t_ack = 3;
+                    e.t_inact = 9;
+                    e.nak_immediate = rng.chance(1, 2);
+                    e.nak_delay_ms = 0;
+                }
+                let nput = sc.puts.len() - 3;
+                let nseg = rng.range(800, 1300);
+                for (k, p) in sc.puts.iter_mut().enumerate() {
+                    if k == 0 {
+                        p.unack = false;
+                        p.at = Trigger::At(0);
+                        p.file = Some(FileSpec { size: nseg * 24 - rng.below(5), class: Content::Rand, cseed: rng.next_u64() });
+                    } else if k < nput {
+                        p.at = Trigger::At(50_000_000);
+                    }
+                }
+                let (a, b) = (sc.puts[0].src, sc.puts[0].dst);
+                let share = rng.range(80, 100);
+                let mut n = 1u32;
+                while (n as u64) < nseg {
+                    if rng.below(100) < share {
+                        sc.script.push(Entry::Fault { src: a, dst: b, sel: Sel::Kind(Kind::Fd, n), act: Act::Drop });
+                    }
+                    n += 2;
                 }
                 sc
             }),
